@@ -134,6 +134,7 @@ struct Prog {
 	long rounds;            // per thread
 	std::vector<std::vector<uint8_t>> script; // per thread: small repeating op pattern
 	bool disjoint_work;
+	bool thread_formats = false; // every thread installs its own JSON_C_OPTION_THREAD double format
 	bool via_container = false; // extra references are held by (and released through) thread-private arrays / objects
 };
 struct ThreadArg {
@@ -170,8 +171,15 @@ static void *worker(void *a)
 	// per-node count of extra references this thread currently holds (besides the pre-acquired one)
 	std::vector<int> held(nodes.size(), 0);
 	char expect[64];
-	snprintf(expect, sizeof expect, "{\"t\":%d,\"a\":[1,2.5,\"x\"]}", t->idx);
+	// a per-thread serialisation option: threads with different settings must not see each other's
+	const bool own_fmt = p.disjoint_work && p.thread_formats;
+	const char *fmt = (t->idx & 1) ? "%.0f" : "%.3g";
+	const char *expect5 = (t->idx & 1) ? "5" : "5.0";
+	// (with an own format the private tree carries no double: its text would depend on the format)
+	snprintf(expect, sizeof expect, own_fmt ? "{\"t\":%d,\"a\":[1,25,\"x\"]}" : "{\"t\":%d,\"a\":[1,2.5,\"x\"]}", t->idx);
 	t->start->wait();
+	if (own_fmt)
+		json_c_set_serialization_double_format(fmt, JSON_C_OPTION_THREAD);
 	if (p.cold_start)
 	{
 		// the main thread keeps the only reference alive; every worker takes its own at the same instant
@@ -254,7 +262,7 @@ static void *worker(void *a)
 				json_object_object_add(o, "t", json_object_new_int(t->idx));
 				json_object *arr = json_object_new_array();
 				json_object_array_add(arr, json_object_new_int(1));
-				json_object_array_add(arr, json_object_new_double(2.5));
+				json_object_array_add(arr, own_fmt ? json_object_new_int(25) : json_object_new_double(2.5));
 				json_object_array_add(arr, json_object_new_string("x"));
 				json_object_object_add(o, "a", arr);
 				const char *s = json_object_to_json_string_ext(o, JSON_C_TO_STRING_PLAIN);
@@ -265,10 +273,20 @@ static void *worker(void *a)
 					t->mismatches++;
 				json_object_put(back);
 				json_object_put(o);
+				if (own_fmt)
+				{
+					json_object *d = json_object_new_double(5.0);
+					const char *ds = json_object_to_json_string(d);
+					if (!ds || strcmp(ds, expect5) != 0)
+						t->mismatches++;
+					json_object_put(d);
+				}
 			}
 			break;
 		}
 	}
+	if (own_fmt)
+		json_c_set_serialization_double_format(nullptr, JSON_C_OPTION_THREAD);
 	// release everything this thread holds, including the reference pre-acquired for it
 	if (p.via_container)
 	{
@@ -344,6 +362,7 @@ static void run_refcount(Choices &c, Ctx &ctx)
 	p.disjoint_work = c.coin(50);
 	p.cold_start = c.coin(40);
 	p.via_container = c.coin(40);
+	p.thread_formats = c.coin(50);
 	for (int i = 0; i < p.nthreads; i++)
 	{
 		std::vector<uint8_t> sc;
@@ -458,6 +477,8 @@ static void run_refcount(Choices &c, Ctx &ctx)
 		ctx.label("cold_start_from_count_1");
 	if (p.via_container)
 		ctx.label("released_through_private_containers");
+	if (p.disjoint_work && p.thread_formats)
+		ctx.label("per_thread_double_formats");
 	uint64_t h = hash_u64((uint64_t)p.nthreads * 1000003 + (uint64_t)p.rounds);
 	for (auto &sc : p.script)
 		h = fnv1a(sc.data(), sc.size(), h);
@@ -502,6 +523,7 @@ static void run_seed(Choices &c, Ctx &ctx)
 	static const char *keys[] = {"key", "", "a somewhat longer member name", "k1", "\xc3\xa4"};
 	const char *key = keys[c.pickn(5)];
 	int retries = c.coin(30) ? (int)c.range(1, 3) : 0;
+	bool switch_hash = c.coin(50);
 	int pfd[2];
 	if (pipe(pfd) != 0)
 		return;
@@ -528,8 +550,30 @@ static void run_seed(Choices &c, Ctx &ctx)
 		// later probes from the main thread
 		lh_table *t = lh_kchar_table_new(4, nullptr);
 		unsigned long final = lh_get_hash(t, key);
-		lh_table_free(t);
 		int bad = 0;
+		if (switch_hash)
+		{
+			// "at every later time": selecting the other string hash and coming back must not draw a new seed;
+			// an object created before still finds its members afterwards
+			json_object *o = json_object_new_object();
+			json_object_object_add(o, key, json_object_new_int(1));
+			json_global_set_string_hash(JSON_C_STR_HASH_PERLLIKE);
+			json_object *o2 = json_object_new_object();
+			json_object_object_add(o2, key, json_object_new_int(2));
+			json_object *v = nullptr;
+			if (!json_object_object_get_ex(o, key, &v) || !json_object_object_get_ex(o2, key, &v))
+				bad++;
+			json_global_set_string_hash(JSON_C_STR_HASH_DFLT);
+			lh_table *t2 = lh_kchar_table_new(4, nullptr);
+			if (lh_get_hash(t2, key) != final || lh_get_hash(t, key) != final)
+				bad++;
+			if (!json_object_object_get_ex(o, key, &v) || !json_object_object_get_ex(o2, key, &v))
+				bad++;
+			lh_table_free(t2);
+			json_object_put(o);
+			json_object_put(o2);
+		}
+		lh_table_free(t);
 		for (auto &a : args)
 			if (a.early != final || a.late != final)
 				bad++;
@@ -544,7 +588,7 @@ static void run_seed(Choices &c, Ctx &ctx)
 	close(pfd[0]);
 	int st = 0;
 	waitpid(pid, &st, 0);
-	std::string desc = str(n) + " threads, key " + quote(key) + ", " + str(retries) + " sentinel retries";
+	std::string desc = str(n) + " threads, key " + quote(key) + ", " + str(retries) + " sentinel retries" + (switch_hash ? ", then the string hash selection switched and switched back" : "");
 	ctx.note(desc + ": " + str((int)rep[0]) + " thread(s) disagree, " + str((int)rep[1]) + " candidate seeds handed out");
 	if (got != 4 || !WIFEXITED(st))
 		ctx.fail("seed-trial-crashed", "the trial process died (status " + str(st) + "): " + desc);
@@ -555,8 +599,10 @@ static void run_seed(Choices &c, Ctx &ctx)
 		return;
 	}
 	ctx.label(rep[1] >= n ? "seed_race_all_threads" : "seed_race_some_threads");
+	if (switch_hash)
+		ctx.label("hash_selection_switched_and_back");
 	if (rep[0] != 0 || WEXITSTATUS(st) != 0)
-		ctx.fail("seed-not-unique", str((int)rep[0]) + " of " + str(n) + " threads computed a hash of the key that differs from the process's final one: " + desc);
+		ctx.fail("seed-not-unique", str((int)rep[0]) + " hash values / lookups (of " + str(n) + " threads, plus the later probes) differ from the process's final hash of the key: " + desc);
 	ctx.nontrivial(hash_str(key, hash_u64((uint64_t)n * 16 + retries)));
 }
 
